@@ -93,6 +93,37 @@ CLAIMS = {
     "overflowed njmax are outside the claim.",
     "design_ref": "DESIGN.md 3 (C39)",
   },
+  "C20": {
+    "text": "Contracts on the real closed-form contact functions, callers checked against callee contracts: math.orthogonals / "
+    "math.make_frame return an orthonormal right-handed frame whose first row is the normalised normal (Lagrange and triple-product "
+    "identities as separately proved lemmas); collision_primitive_core.plane_sphere, sphere_sphere, sphere_capsule, plane_capsule and "
+    "plane_box satisfy the geometric spec taken from the statement: the normal is unit (and parallel to the centre line / equal to the "
+    "plane normal), and the two points pos -/+ normal*dist/2 lie on the surface of the first / second geom, i.e. dist is the signed "
+    "separation along the normal and pos is midway between the surfaces; plane_capsule's frame is orthonormal in both of its branches; "
+    "the plane_sphere and sphere_sphere wrappers store make_frame(core normal), core dist and core pos in the contact they allocate. "
+    "Found and repaired: plane_capsule returned a non-orthonormal frame for a capsule standing along a tilted plane's normal.",
+    "note": _BASE + "Exact over the reals. Geoms are assumed well-formed (radii >= 0, unit plane normals and capsule axes, orthonormal "
+    "geom rotations). closest_segment_point is regularised by 1e-6, so capsule pairs are proved to touch a point OF the axis segment, "
+    "not the closest one. plane_ellipsoid is proved only for its plane side. capsule_capsule, sphere_cylinder, plane_cylinder, "
+    "sphere_box, capsule_box, box_box, triangles, height fields, GJK/EPA and the convex multi-contact paths are not under contract; of "
+    "the wrappers only plane_sphere and sphere_sphere are.",
+    "design_ref": "DESIGN.md 3 (C20), 12.5",
+  },
+  "C23": {
+    "text": "Modular contracts on the real functions (callers are checked against callee contracts, not bodies): math.mul_quat is "
+    "norm-multiplicative, axis_angle_to_quat yields a unit quaternion for a unit axis (identity for zero axis and angle), quat_integrate "
+    "returns a unit quaternion for EVERY input (unnormalised or zero quaternion, zero velocity), quat_to_mat of a unit quaternion is "
+    "orthonormal with determinant +1. forward._next_position (in place and with a separate input, as at its launch sites) leaves a unit "
+    "quaternion in the four slots of every free / ball joint and writes only the joint's own slots; every launch or copy that writes "
+    "Data.qpos inside step()/step2() is followed on its path by such a launch. smooth._kinematics_branch stores only unit quaternions in "
+    "xquat for any qpos (loop invariant on the joint loop, thread-modular invariant 'all xquat cells are unit'); the kernels storing xmat, "
+    "ximat, geom_xmat, site_xmat and fixed-mode cam_xmat store quat_to_mat of a product of unit quaternions, i.e. a proper rotation.",
+    "note": _BASE + "Exact over the reals: float32 round-off of the final normalisation is not modelled. wp.normalize semantics (zero "
+    "quaternion -> warp identity, zero vector -> zero) audited natively. MODEL_WF.unit_quats (body/geom/site/cam quaternions, body_iquat, "
+    "hinge axes are normalised by the MuJoCo compiler), MODEL_WF.joint_slots (qpos slots of different joints are disjoint) and "
+    "'xquat[:,0] is the identity' are assumed. Target-tracking camera frames, light directions, flex frames are not covered.",
+    "design_ref": "DESIGN.md 3 (C23), 12.5",
+  },
   "C25": {
     "text": "Transition contracts on the real termination kernels (_solve_done, _solve_cg_finalize; ctx.done aliased for in/out as at "
     "the launch site): per world niter increments by one and never exceeds the limit, the invariant 'not done => niter < iterations' is "
